@@ -44,15 +44,34 @@ func autoDetectPacketSize(r io.Reader) (packetSize int, err error) {
 	// Read first bytes
 	const l = 193
 	var b = make([]byte, l)
-	shouldRewind, rerr := peek(r, b)
+	n, shouldRewind, rerr := peek(r, b)
 	if rerr != nil {
 		err = fmt.Errorf("astits: reading first %d bytes failed: %w", l, rerr)
+		return
+	}
+
+	// A failed detection must consume the bytes it has looked at, otherwise callers would never make any progress
+	defer func() {
+		if br, ok := r.(*bufio.Reader); ok && err != nil {
+			br.Discard(n)
+		}
+	}()
+
+	// There's nothing left to read
+	if n == 0 {
+		err = ErrNoMorePackets
 		return
 	}
 
 	// Packet must start with a sync byte
 	if b[0] != syncByte {
 		err = ErrPacketMustStartWithASyncByte
+		return
+	}
+
+	// There's not enough bytes left for a packet, as for any truncated packet this is the end of the stream
+	if n < MpegTsPacketSize {
+		err = ErrNoMorePackets
 		return
 	}
 
@@ -73,7 +92,7 @@ func autoDetectPacketSize(r io.Reader) (packetSize int, err error) {
 				return
 			} else if n == -1 {
 				var ls = packetSize - (l - packetSize)
-				if _, err = r.Read(make([]byte, ls)); err != nil {
+				if _, err = io.ReadFull(r, make([]byte, ls)); err != nil {
 					err = fmt.Errorf("astits: reading %d bytes to sync reader failed: %w", ls, err)
 					return
 				}
@@ -88,19 +107,20 @@ func autoDetectPacketSize(r io.Reader) (packetSize int, err error) {
 // bufio.Reader can't be rewinded, which leads to packet loss on packet size autodetection
 // but it has handy Peek() method
 // so what we do here is peeking bytes for bufio.Reader and falling back to rewinding/syncing for all other readers
-func peek(r io.Reader, b []byte) (shouldRewind bool, err error) {
+func peek(r io.Reader, b []byte) (n int, shouldRewind bool, err error) {
 	if br, ok := r.(*bufio.Reader); ok {
 		var bs []byte
 		bs, err = br.Peek(len(b))
-		if err != nil {
-			return
-		}
-		copy(b, bs)
-		return false, nil
+		n = copy(b, bs)
+	} else {
+		n, err = io.ReadFull(r, b)
+		shouldRewind = true
 	}
 
-	_, err = r.Read(b)
-	shouldRewind = true
+	// Getting fewer bytes than requested because the end of the reader has been reached is not an error here
+	if err == io.EOF || err == io.ErrUnexpectedEOF {
+		err = nil
+	}
 	return
 }
 
